@@ -194,8 +194,13 @@ Section Ledger.
   Notation sys_run := (@Cas.sys_run key value lopt key_eqb key_ltb lmatch RT).
   Notation cstep := (@Cas.client_step key value lopt key_eqb key_ltb lmatch RT).
 
+  Section Inv.
+  (* what a client's program guarantees when it returns; two instances below *)
+  Variable Qc : nat -> ctr -> hist -> RT -> Prop.
+  Hypothesis Qc_mono : forall nb d H H' r, hext H H' -> Qc nb d H r -> Qc nb d H' r.
+
   Definition client_ok (H : hist) (g : nat * ctr) (c : cstate) : Prop :=
-    match c with CRun p => sD (fst g) (snd g) H p (Pdq dzero) | CCrashed => True end.
+    match c with CRun p => sD (fst g) (snd g) H p Qc | CCrashed => True end.
 
   Definition INV (y : sysT) (gs : list (nat * ctr)) (H : hist) : Prop :=
     store_hist (sy_store y) H /\ hist_ok2 H /\ NoDup (Cas.keys (sy_store y)) /\
@@ -231,7 +236,7 @@ Section Ledger.
 
   Lemma client_ok_mono H H' g c : hext H H' -> client_ok H g c -> client_ok H' g c.
   Proof.
-    destruct c; simpl; auto. intros E S. eapply safeD_mono; eauto. intros ? ? ? ? ? _ X; exact X.
+    destruct c; simpl; auto. intros E S. eapply safeD_mono; eauto.
   Qed.
 
   Lemma nth_error_map_snd (gs : list (nat * ctr)) i g : nth_error gs i = Some g -> nth_error (map snd gs) i = Some (snd g).
@@ -392,14 +397,19 @@ Section Ledger.
     - exfalso. apply nth_error_None in NG. assert (j < length gs1)%nat by (apply nth_error_Some; congruence). lia.
   Qed.
 
+  End Inv.
+
   (* ---------------------------------------------------------------- the theorems *)
   Notation sys0 := (Proofs.sys0 cf fx true).
+
+  Lemma PdqM : forall nb d (H H' : hist) (r : RT), hext H H' -> Pdq dzero nb d H r -> Pdq dzero nb d H' r.
+  Proof. intros ? ? ? ? ? _ X; exact X. Qed.
 
   Lemma dsum_zero (l : list (nat * ctr)) h c : Forall (fun g => snd g = dzero) l -> dsum (map snd l) h c = 0%N.
   Proof. induction 1 as [|g t E F IH]; simpl; auto. rewrite E, IH. reflexivity. Qed.
 
   Lemma inv0 clients B : Forall (fun hc => Forall (wf_op cf) (snd hc)) clients -> (B + 2 <= cf_retries cf)%nat ->
-    INV (sys0 clients) (map (fun _ => (B, dzero)) clients) (fun _ => None).
+    INV (Pdq dzero) (sys0 clients) (map (fun _ => (B, dzero)) clients) (fun _ => None).
   Proof.
     intros WF BUD. split; [|split; [|split; [|split]]].
     - split; simpl; [intros e []|intros r kv X; discriminate].
@@ -418,9 +428,9 @@ Section Ledger.
 
   Theorem ledger_reachable clients evs B :
     Forall (fun hc => Forall (wf_op cf) (snd hc)) clients -> within_budget clients evs B ->
-    exists gs H, INV (sys_run (sys0 clients) evs) gs H.
+    exists gs H, INV (Pdq dzero) (sys_run (sys0 clients) evs) gs H.
   Proof.
-    intros WF [BUD SEEN]. apply (inv_run evs _ _ _ (inv0 clients B WF BUD)).
+    intros WF [BUD SEEN]. apply (inv_run (Pdq dzero) PdqM evs _ _ _ (inv0 clients B WF BUD)).
     intros j g NG. rewrite nth_error_map in NG. destruct (nth_error clients j); simpl in NG; [|discriminate].
     inversion NG; subst. simpl. apply SEEN.
   Qed.
@@ -448,6 +458,51 @@ Section Ledger.
     clear L. revert DONE. induction F as [|g cst gs' cs' CK F IH]; intros DONE; simpl; constructor.
     - inversion DONE as [|? ? (l & ->) _]; subst. simpl in CK. exact CK.
     - apply IH. inversion DONE; auto.
+  Qed.
+
+  (* ---------------------------------------------------------------- without any bound on conflicts *)
+  Lemma u_run_ops_acc host ops : forall acc nb d H, Forall (wf_op cf) ops ->
+    sD nb d H (Proofs.run_ops_acc cf fx true host ops acc) PT.
+  Proof.
+    induction ops as [|o t IH]; intros acc nb d H WF; simpl; [exact I|].
+    inversion WF as [|? ? WO WT]; subst.
+    eapply safeD_bind; [apply (u_compile cf fx F1 F2 F3 BS); auto|].
+    cbv beta. intros nb1 d1 H1 r LE1 E1 P1. apply IH; auto.
+  Qed.
+
+  Lemma PTM : forall nb d (H H' : hist) (r : RT), hext H H' -> @PT RT nb d H r -> @PT RT nb d H' r.
+  Proof. intros; exact I. Qed.
+
+  Lemma inv0u clients B : Forall (fun hc => Forall (wf_op cf) (snd hc)) clients ->
+    INV PT (sys0 clients) (map (fun _ => (B, dzero)) clients) (fun _ => None).
+  Proof.
+    intros WF. split; [|split; [|split; [|split]]].
+    - split; simpl; [intros e []|intros r kv X; discriminate].
+    - intros r k v X; discriminate.
+    - simpl. constructor.
+    - intros h c. unfold hcnt_of, alloc_of. simpl. rewrite dsum_zero; auto.
+      apply Forall_forall. intros g X. apply in_map_iff in X. destruct X as (x & <- & _). reflexivity.
+    - simpl. induction clients as [|[host ops] t IH]; simpl; constructor.
+      + simpl. inversion WF; subst. apply u_run_ops_acc; auto.
+      + apply IH. inversion WF; auto.
+  Qed.
+
+  Lemma seen_le_length evs : forall y i, (seen y evs i <= length evs)%nat.
+  Proof.
+    induction evs as [|ev t IH]; intros y i; simpl; auto.
+    specialize (IH (sys_step y ev) i). destruct (Nat.eqb (ev_client ev) i && conf_of y ev); lia.
+  Qed.
+
+  (* in EVERY reachable state (any interleaving, any number of conflicts, crashes): handles never under-count *)
+  Theorem never_undercounts_all clients evs :
+    Forall (fun hc => Forall (wf_op cf) (snd hc)) clients ->
+    forall h c, (alloc_of (sy_store (sys_run (sys0 clients) evs)) h c <= hcnt_of (sy_store (sys_run (sys0 clients) evs)) h c)%N.
+  Proof.
+    intros WF h c.
+    destruct (inv_run PT PTM evs _ _ _ (inv0u clients (length evs) WF)) as (gs & H & (_ & _ & _ & L & _)).
+    - intros j g NG. rewrite nth_error_map in NG. destruct (nth_error clients j); simpl in NG; [|discriminate].
+      inversion NG; subst. simpl. apply seen_le_length.
+    - rewrite (L h c). lia.
   Qed.
 End Ledger.
 
